@@ -294,19 +294,28 @@ func c03LoopedChainCase(ch c03Chain, mask int, tail string) *Case {
 		c.Oracle = &Verdict{OK: false, Class: "chain-render-failed:looped-member", Detail: fmt.Sprintf("%+v", res)}
 		return c
 	}
+	// a `v-else` in the tail continues the LAST chain of the shape (the one starting at the last `v-if`)
+	lastIf := 0
+	for i, k := range ch.kinds {
+		if k == "if" {
+			lastIf = i
+		}
+	}
 	want := []string{"pre"}
 	chosen := false
 	for _, m := range ch.expect("") {
-		chosen = true
 		var idx int
 		fmt.Sscanf(m, "m%d", &idx)
+		if idx >= lastIf {
+			chosen = true
+		}
 		want = append(want, m)
 		if mask&(1<<idx) != 0 {
 			want = append(want, m)
 		}
 	}
 	hasElse := false
-	for _, k := range ch.kinds {
+	for _, k := range ch.kinds[lastIf:] {
 		hasElse = hasElse || k == "else"
 	}
 	if strings.Contains(tail, "v-else") && !chosen && !hasElse {
